@@ -255,8 +255,17 @@ def _handler_fails_only_flow(fn, tr, h):
     pushed = any(isinstance(c, ast.Call) and src(c.func) in ("_push_internal_event", "_push_left_internal_event") and any(
         isinstance(x, ast.Name) and x.id in {b.targets[0].id for b in built} for a_ in c.args for x in ast.walk(a_)) for c in walk_no_nested(fn))
     # direct form: the handler itself aborts the flow at hand and queues `Event(name="ColangError", ...)` (used where the failing call sits in a helper of the per-head loop)
+    mod_ = fn
+    while getattr(mod_, "_parent", None) is not None:
+        mod_ = mod_._parent
+    # functions whose every return value is `Event(name="ColangError", ...)`: a call of one of them builds the error event (whatever the helper is called)
+    builders = {f.name for f in getattr(mod_, "body", []) if isinstance(f, ast.FunctionDef) and [r for r in ast.walk(f) if isinstance(r, ast.Return)] and all(
+        isinstance(r.value, ast.Call) and src(r.value.func) == "Event" and "ColangError" in src(r.value) for r in ast.walk(f) if isinstance(r, ast.Return))}
+
+    def _is_error_event(x):
+        return isinstance(x, ast.Call) and ((src(x.func) == "Event" and "ColangError" in src(x)) or (isinstance(x.func, ast.Name) and x.func.id in builders))
     direct_push = any(isinstance(c, ast.Call) and src(c.func) in ("_push_internal_event", "_push_left_internal_event") and any(
-        isinstance(x, ast.Call) and src(x.func) == "Event" and "ColangError" in src(x) for a_ in c.args for x in ast.walk(a_)) for st in h.body for c in ast.walk(st))
+        _is_error_event(x) for a_ in c.args for x in ast.walk(a_)) for st in h.body for c in ast.walk(st))
     direct_abort = any(isinstance(c, ast.Call) and src(c.func) == "_abort_flow" for st in h.body for c in ast.walk(st))
     ended = False
     if direct_push and not direct_abort:
@@ -272,7 +281,7 @@ def _handler_fails_only_flow(fn, tr, h):
             for x in walk_no_nested(st):
                 if isinstance(x, ast.Call):
                     f = src(x.func)
-                    if not (f.startswith("log.") or f in _HANDLER_CALLS or (f.endswith(".get") and isinstance(x.func, ast.Attribute) and not isinstance(x.func.value, ast.Call))):
+                    if not (f.startswith("log.") or f in _HANDLER_CALLS or f in builders or (f.endswith(".get") and isinstance(x.func, ast.Attribute) and not isinstance(x.func.value, ast.Call))):
                         return False, "the handler calls `%s(...)`, which may raise inside the handler" % f
         if ended:
             return True, "the flow at hand has already ended when the call is made; the handler logs and queues a ColangError event"
